@@ -1,0 +1,28 @@
+//! Verification seam, compiled only with `--cfg ragc_verif` (never in shipped builds):
+//! `std::sync` / `std::thread` as used by the streaming pipeline, replaced by shuttle's
+//! scheduler-controlled equivalents so that a simulator decides every interleaving.
+//! The `shuttle` crate is supplied by the verification harness's manifest.
+
+pub use shuttle::sync::{Arc, Barrier, Condvar, Mutex, RwLock};
+
+pub mod atomic {
+    pub use shuttle::sync::atomic::{AtomicI32, AtomicU32, AtomicU64, AtomicUsize, Ordering};
+}
+
+pub mod thread {
+    pub use shuttle::thread::{spawn, yield_now, JoinHandle};
+
+    /// Polling sleeps advance the logical clock and yield to the scheduler.
+    pub fn sleep(d: std::time::Duration) {
+        ragc_common::verif::advance_clock(d.as_millis() as u64);
+        ragc_common::verif::event("sleep", d.as_millis() as u64, 0, 0);
+        shuttle::thread::yield_now();
+    }
+}
+
+/// Identity of the running shuttle task (0 outside an execution).
+pub fn task_id() -> u32 {
+    shuttle::current::get_current_task()
+        .map(|t| usize::from(t) as u32)
+        .unwrap_or(0)
+}
